@@ -387,7 +387,7 @@ def parseToks (orc : Oracle) (m : PM) (ts : List (Tok × Nat)) : PM :=
 
 /-! ## files, search path, includes -/
 
-inductive FileKind | reg | dir
+inductive FileKind | reg | dir | dev      -- dev: a character device that reads as empty (/dev/null)
 deriving DecidableEq, Repr, Inhabited
 
 structure PEnv where
@@ -399,6 +399,13 @@ structure PEnv where
 
 def isRegular (pe : PEnv) (p : Bytes) : Bool :=
   match pe.fs p with | some (.reg, _) => true | _ => false
+
+/-- `fopen(path, "r")` followed by the directory check: the content if the path can be read -/
+def openFile (pe : PEnv) (p : Bytes) : Option Bytes :=
+  match pe.fs p with
+  | some (.reg, content) => some content
+  | some (.dev, content) => some content
+  | _ => none
 
 /-- `cfg_tilde_expand` -/
 def tildeExpand (pe : PEnv) (name : Bytes) : Bytes :=
@@ -434,12 +441,12 @@ def doInclude (pe : PEnv) (m : PM) (fname : Bytes) : PM :=
     else match resolveFile pe fname with
       | none => m.rejectWith f rest .includeNotFound
       | some xf =>
-        (match pe.fs xf with
-         | some (.reg, content) =>
+        (match openFile pe xf with
+         | some content =>
            let f' := { f with cfg := f.cfg.setInfo { f.cfg.info with filename := some xf, line := 1 } }
            { m with frames := f' :: rest,
                     srcs := { rest := content, savedFile := f.cfg.info.filename, savedLine := f.cfg.info.line } :: m.srcs }
-         | _ => m.rejectWith f rest .includeOpen)
+         | none => m.rejectWith f rest .includeOpen)
 
 inductive StartCond | initial | dq | sq | comment
 deriving DecidableEq, Repr, Inhabited
@@ -525,8 +532,8 @@ def parseFile (orc : Oracle) (pe : PEnv) (c : Cfg) (name : Bytes) (k0 : Nat := 0
   | none => { cfg := c, rc := -1, diags := [], trace := [], maxDepth := 0, incLeft := 0, fuelOut := false }
   | some fn =>
     let c1 := c.setFilename (some fn)
-    match pe.fs fn with
-    | some (.reg, content) => parseFp orc pe c1 content k0
-    | _ => { cfg := c1, rc := -1, diags := [], trace := [], maxDepth := 0, incLeft := 0, fuelOut := false }
+    match openFile pe fn with
+    | some content => parseFp orc pe c1 content k0
+    | none => { cfg := c1, rc := -1, diags := [], trace := [], maxDepth := 0, incLeft := 0, fuelOut := false }
 
 end Confuse
